@@ -119,7 +119,7 @@ PROPS = {
         alias=[r'^C05\.open\.wbflags', r'^C05\.(open|flush)\.no_open', r'^C05\.opendir\.no_opendir', r'^C05\.\w+\.killpriv', r'^C05\.get_(dir)?data\.'],
         design_ref='DESIGN.md section 5, C12',
         not_covered=[
-            'Vfs::destroy and backends mounted AFTER init (Vfs::mount_with_id_mapping initialises them; mount path not covered)',
+            'Vfs::destroy; restore_mount (persist feature) never initialises the backend it attaches (observation in DESIGN A.6); backends mounted AFTER init ARE covered: Vfs::mount_with_id_mapping may call init only on an initialised VFS and only with the negotiated out_opts ([C12.mount.init], unit vfsmount)',
             'for PassthroughFs::init / OverlayFs::init the converse (feature negotiated => switch IS stored); the effect of the switches on later requests beyond: PassthroughFs (unit ptops: writeback flag rewriting, ENOSYS for open/opendir/flush, the descriptor used in no_open / no_opendir mode, CAP_FSETID dropping for kill-priv - all as functions of the negotiated switch) and the writeback rewriting of the open flags in OverlayFs::open / create (D21); per-file DAX attribute flags; a second INIT after DESTROY on a passthrough / overlay instance (switches are only ever turned on)',
             'that the negotiated version IS stored (obligation to act); only that nothing but the client\'s (major, minor) may be stored',
             'fields of the INIT reply the property does not constrain (max_background, congestion_threshold, time_gran, minor)',
